@@ -185,6 +185,7 @@ Fixpoint write_all (l : store) (idxs : list nat) (news : list rule) : store :=
 Definition update_policies (prio_tok : option nat) (l : store) (olds news : list rule)
   : result (store * bool) :=
   if negb (Nat.eqb (length olds) (length news)) then Ok (l, false)
+  else if negb (nodupb rule_eqb olds) then Ok (l, false)      (* repaired: an old rule listed twice *)
   else match indices_of l olds with
        | None => Ok (l, false)
        | Some idxs =>
